@@ -106,3 +106,10 @@ def run(chk):
     chk.rule('C17-H', 'explicit delimiters of a message reach lazily created descendants: the ancestor look-up follows '
                       'traversal_parent before falling back to the process-wide defaults')
     codelemmas.ancestor_lookup(chk, c, 'C17-H')
+    chk.rule('C17-N', 'the resolvers of omitted arguments (_get_version, _get_validation_level, _get_encoding_chars) return the '
+                      'process default, never None, when the argument is missing')
+    codelemmas.producers_return(chk, c, 'C17-N')
+    chk.rule('C17-K', 'the keyword dictionary an element hands to its (dynamically resolved) child parser carries the element\'s own '
+                      'version, validation level and encoding characters')
+    codelemmas.dynamic_parser_handoff(chk, c, 'C17-K')
+
